@@ -238,7 +238,8 @@ coap_pdu_duplicate_lkd(const coap_pdu_t *old_pdu,
   if (pdu == NULL)
     return NULL;
 
-  coap_add_token(pdu, token_length, token);
+  if (!coap_add_token(pdu, token_length, token))
+    goto fail;
   pdu->lg_xmit = old_pdu->lg_xmit;
 
   if (drop_options == NULL) {
